@@ -186,7 +186,7 @@ var idxGroups = []string{"g", "h", "g"}
 var idxIDs = []string{"1", "2", "3", "4", "a.b"}
 
 func (d *idxDom) Gen(r *gen.R, tier string, emit func(string)) {
-	blocks := 60
+	blocks := 250
 	if tier == "thorough" {
 		blocks = 1200
 	}
